@@ -386,6 +386,9 @@ class Message(MutableMapping):
                 except Exception as exc:
                     raise DecodeError(ERRTXT % (key, exc))
                 else:
+                    if not isinstance(val, list):
+                        # the deserializer handed the dict back: not a value for a list slot
+                        raise DecodeError(ERRTXT % (key, "type != %s" % vtype))
                     self._dict[skey] = val
             else:
                 raise DecodeError(ERRTXT % (key, "type != %s" % vtype))
